@@ -214,7 +214,7 @@ def g_ordering(R, tier):
                           inner_nonlocal_names=Opaque("inner_nonlocal_names", set, len=lambda o: 3, truthy=True),
                           nonlocal_parameters=params, nonlocal_dict_expr=ast.Name(id=Hole("nld", "ident", fresh=True)), is_method=False)
         G = CL.mk_global()
-        node = ast.FunctionDef(name="f", args=None, body=[], decorator_list=[], returns=None)
+        node = ast.FunctionDef(name="f", args=None, body=CL.fn_body(), decorator_list=[], returns=None)
         self_ = CL.mk_pending(pn.PendingFunctionDef, node, CL.mk_nsp("outer"), G, internal_nsp=inner,
                               converted_args=ast.arguments(posonlyargs=[], args=[], kwonlyargs=[], kw_defaults=[], defaults=[]),
                               converted_body=[])
